@@ -31,6 +31,7 @@ def run(ck):
                                     "diffs": json.loads(json.dumps(m["diffs"], default=str))[:2]})
     progs, cov, nfaults, nontriv, audited = semcheck.check_all(ck, "C18", 150 if quick else 2500, faults_per_program=0,
                                                                tblgen_sample=(25 if quick else 400))
+    semcheck.scope_leak_probes(ck, "C18")
     ck.count("generated", len(progs) + nfaults, nontriv if not nfaults else set(range(len(nontriv) + nfaults)),
              sample={"files": progs[0].files}, seeded_faults=nfaults,
              coverage=semcheck.cov_summary(cov, ["decl:", "fold:", "class:", "stmt:"]), llvm_tblgen_audit=audited)
